@@ -123,6 +123,32 @@ def run(ctx):
                 nontriv += 1
             if plain != m:
                 mism.append({"case": ln[:3000], "c": plain[:500], "model": m[:500]})
+        # skipping a member whose data is truncated ends the archive -- also when the caller's skip callback refuses the skip
+        # WITHOUT moving (kind cbskipstay, C only), so that the bytes that are there (here: a complete, valid member) are still
+        # unread: iteration must stop at the truncated member exactly as it does on a pipe
+        r13 = random.Random(ctx.seed * 49979693 + 1313)
+
+        def plain_member(name, clen, data, lv):
+            f = {"level": lv, "method": b"-lh0-", "clen": clen, "length": clen & 0xffffffff, "crc": 0, "attr": 0x20, "os": ord('U'),
+                 "time": 0x21 if lv < 2 else 1000000000, "name": name, "exts": [(1, name)]}
+            return lb.build_header(f) + data
+        sf = []
+        for j in range(4 if ctx.quick else 30):
+            inner = plain_member(b"hidden", 3, b"abc", r13.choice([0, 1, 2])) + r13.choice([b"", b"\0"])
+            for cmd, lead in (("hdrs", b""), ("hdr", bytes(r13.randrange(1, 256) for _ in range(8)))):
+                data = lead + inner
+                decl = r13.choice([len(data) + 1, len(data) + r13.randrange(2, 40), 70000, 2 ** 31 + 5, 2 ** 32 - 1])
+                a = r13.choice([b"", plain_member(b"first", 4, b"1234", 1)]) + plain_member(b"outer", decl, data, r13.choice([0, 1, 2]))
+                sf.append((a, ["%s %s %s" % (cmd, k, a.hex()) for k in ("pipe", "cbskipstay")]))
+        so = common.run_lines_parallel([hexe], [l for _, ls in sf for l in ls], timeout=60, single_timeout=5, max_hangs=2)
+        for j, (a, ls) in enumerate(sf):
+            dist["skip-refused"] += 1
+            ref, got = [ALLOC.sub("", x).split(" reads=")[0] for x in so[2 * j:2 * j + 2]]
+            if got.startswith("HANG") or "TIMEOUT" in got:
+                viol.append({"property": PID, "kind": "call-does-not-return", "case": ls[1][:100000], "observed": got[:200], "sig": "hang:cbskipstay"})
+            elif got != ref:
+                viol.append({"property": PID, "kind": "truncated-member-does-not-end-archive", "case": ls[1][:100000], "case_pipe": ls[0][:100000],
+                             "observed": got[:400], "observed_pipe": ref[:400], "input_len": len(a), "sig": "skip-refused"})
         # decoders: endless / self-referential / truncated inputs must stop at the declared length
         dl = []
         for h in range(32):
@@ -181,6 +207,21 @@ def run(ctx):
                     for op in ("c", "r5", "r100000", "x"):
                         hl.append((T.case(rnd.choice(T.KINDS), "eod", arc, ["n", op] * nmem + ["n"]), len(arc)))
         n_heap_family = len(hl)
+        # members that DECLARE a huge uncompressed length (16 MiB .. 4 GiB) and hold a few bytes: checking / reading / extracting
+        # them must not make the library allocate by the declared size (stored data, and real streams cut short)
+        rh = random.Random(ctx.seed * 32452867 + 1313)
+        for decl_len in (2 ** 32 - 1, 2 ** 31, 2 ** 24 + 1, 9 * 2 ** 20, 100 * 2 ** 20):
+            sds = [{"method": "-lh0-", "data": b"abc", "length": decl_len, "crc": 0, "plain": b"abc"}]
+            for m in ("-lh5-", "-lh1-", "-lzs-", "-lh7-"):
+                if pool.by.get(m):
+                    s0 = dict(pool.by[m][0])
+                    s0["data"], s0["length"] = s0["data"][:max(1, len(s0["data"]) // 2)], decl_len
+                    sds.append(s0)
+            for s0 in (sds if not ctx.quick else [sds[0], rh.choice(sds[1:] or sds)]):
+                for os_ in (T.U, T.MAC):
+                    arc = T.archive([T.file_member(rh, s0, b"big%d" % i, rh.choice([1, 2, 3]), os_, None, None, T.T_A) for i in range(2)])
+                    for op in ("c", "r5", "x"):
+                        hl.append((T.case(rh.choice(T.KINDS), "eod", arc, ["n", op, "n", op, "n"]), len(arc)))
         for m in sorted(pool.by):
             sd_ = pool.by[m][0]
             for os_ in (T.U, T.MAC):
@@ -263,14 +304,14 @@ def run(ctx):
                 viol.append({"property": PID, "kind": "command-does-not-return", "command": cmd, "stdin_hex": stdin_.hex(),
                              "file_exists_before": pre, "archive_hex": a.hex()[:20000], "observed": "no exit within 20 s (and, run alone, within 45 s)",
                              "sig": "hang:tool:" + tag})
-        cov = {"evaluations": len(lines) + len(dl) + len(hl) + len(cli), "distinct_nontrivial": nontriv,
+        cov = {"evaluations": len(lines) + len(dl) + len(hl) + len(cli) + 2 * len(sf), "distinct_nontrivial": nontriv,
                "rule": "every truncation offset of small repository and generated archives x stream kinds, plus archives with extreme "
                        "length fields (level-3 length 2^32-1 / 1 MiB+1, level-1 chains of 300 extended headers cut short, a 65535-byte "
                        "extended header with 10 bytes of input, 4 GiB members with 3 bytes of data); per case: the driver returns "
                        "(watchdog), requests <= len + 16*(members+2), peak heap <= 8 MiB + 2*len, nothing live after free, and the "
                        "line (incl. request counts for callback streams) equals the model's; decoders: -pm1- with empty input for all "
                        "32 start headers, a pm2 stream that needs no input, halves of real members with a 4 GiB declared length, "
-                       "constant input, and for every method short prefixes of real streams / hand-made table headers followed by runs of 0xFF, 0x00, 0xAA bytes and then the end of input (the input ends inside unary runs and escape codes): every decode returns with at most the declared length; archives of 6-40 members of the methods with the largest decoder states, as plain and as Mac-archive members, checked / read / extracted one after the other through the reader: peak heap <= 8 MiB + 2*len; members of every method, plain and Mac, whose compressed data ends early, and Mac members that promise a MacBinary header their data does not contain (cut at 0/1/64/127/129 bytes), checked / read / extracted through the reader: every call returns (per-case alarm); the tool itself: l v t pq xqf on the extreme archives and x/e/xi over an existing file with a standard input that ends or never answers sensibly: the command exits. non-trivial = case yielding a member",
+                       "constant input, and for every method short prefixes of real streams / hand-made table headers followed by runs of 0xFF, 0x00, 0xAA bytes and then the end of input (the input ends inside unary runs and escape codes): every decode returns with at most the declared length; archives of 6-40 members of the methods with the largest decoder states, as plain and as Mac-archive members, checked / read / extracted one after the other through the reader: peak heap <= 8 MiB + 2*len; the same for members that declare 9 MiB .. 4 GiB and hold a few bytes; members of every method, plain and Mac, whose compressed data ends early, and Mac members that promise a MacBinary header their data does not contain (cut at 0/1/64/127/129 bytes), checked / read / extracted through the reader: every call returns (per-case alarm); the tool itself: l v t pq xqf on the extreme archives and x/e/xi over an existing file with a standard input that ends or never answers sensibly: the command exits; truncated members whose remaining bytes hold a complete member, through a skip callback that refuses without moving: the iteration ends there as on a pipe. non-trivial = case yielding a member",
                "distribution": dict(dist), "samples": [lines[0][:120], lines[-1][:160], dl[0][:80]]}
         return {"violations": viol[:10], "mismatches": mism[:10], "coverage": cov,
                 "search_note": "direct oracles: watchdog, request and heap accounting of the driver"}
